@@ -447,6 +447,94 @@ def transform_roundtrip_body():
     return back["p"] == v
 
 
+# ------------------------------------------------------------------------------------------ TPE output stage
+class NPArr(NP01):
+    """elementwise round/clip on object arrays (the TPE output stage is vectorised)"""
+
+    def round(self, x, *a, **k):
+        if isinstance(x, np.ndarray) and x.dtype == object:
+            out = np.empty(x.shape, dtype=object)
+            for idx in np.ndindex(x.shape):
+                out[idx] = NPF64.round(self, x[idx])
+            return out
+        return NPF64.round(self, x, *a, **k)
+
+    def clip(self, x, lo, hi, **k):
+        if isinstance(x, np.ndarray) and x.dtype == object:
+            out = np.empty(x.shape, dtype=object)
+            for idx in np.ndindex(x.shape):
+                v = x[idx]
+                if isinstance(v, f64.SymZ):
+                    v = F64(z3.ToReal(v.e))
+                out[idx] = NPF64.clip(self, v, lo, hi)
+            return out
+        return NPF64.clip(self, x, lo, hi, **k)
+
+
+def make_tpe_stage_body(kind, step):
+    """the real _MixtureOfProductDistribution.sample (discrete truncated normal) followed by the real _ParzenEstimator._untransform:
+    whatever the truncated-normal sampler returns inside its truncation interval, the parameter is a member of the domain"""
+    from optuna.samplers._tpe import probability_distributions as pdm, parzen_estimator as pem
+
+    def body():
+        npa = NPArr()
+        pdm.np = npa
+        pem.np = npa
+        mu, sigma = np.array([0.3]), np.array([1.7])
+        if kind == "int":
+            low = sx.sym_int("low", -(2 ** 40), 2 ** 40)
+            high_k = sx.sym_int("k", 0, 2 ** 40)
+            dist = IntDistribution(low, low + high_k * step, step=step)
+            lo_v, hi_v, st_v = dist.low, dist.high, step
+            s_sample = sx.sym_real("sample")
+            sx.assume((s_sample >= lo_v - st_v / 2) & (s_sample <= hi_v + st_v / 2))
+            sample_val = s_sample
+        else:
+            stepq = Fraction(float(step))
+            L, M = 1000, 1000
+            F64Ctx.B = Fraction(L) + M * stepq + 1
+            low = sx.sym_real("low", -L, L)
+            m = sx.sym_int("m", 1, M)
+            high = sx.sym_real("high")
+            e = Fraction(1, 2 ** 53) * F64Ctx.B
+            exact_high = SymReal(low.e + z3.ToReal(m.e) * sx.proxies.rv(stepq))
+            sx.assume((high >= exact_high - e) & (high <= exact_high + e))
+            dist = FloatDistribution.__new__(FloatDistribution)
+            dist.low, dist.high, dist.step, dist.log = F64(low.e), F64(high.e), float(step), False
+            lo_v, hi_v, st_v = dist.low, dist.high, float(step)
+            s_sample = sx.sym_real("sample")
+            sx.assume((s_sample >= low - stepq / 2) & (s_sample <= high + stepq / 2))
+            sample_val = F64(s_sample.e)
+
+        class TN:
+            @staticmethod
+            def rvs(a, b, loc, scale, random_state):
+                out = np.empty(1, dtype=object)
+                out[0] = sample_val           # ANY point of the truncation interval [low - step/2, high + step/2]
+                return out
+
+        class RNG:
+            def choice(self, n, p=None, size=None):
+                return np.zeros(size, dtype=int)
+
+            def rand(self, n):
+                return np.full(n, 0.5)
+        pdm._truncnorm = TN
+        mix = pdm._MixtureOfProductDistribution(weights=np.array([1.0]),
+                                                distributions=[pdm._BatchedDiscreteTruncNormDistributions(mu, sigma, lo_v, hi_v, st_v)])
+        arr = mix.sample(RNG(), 1)                                        # REAL code
+        fake_self = type("PE", (), {"_search_space": {"p": dist}, "_is_log": staticmethod(pem._ParzenEstimator._is_log)})()
+        out = pem._ParzenEstimator._untransform(fake_self, arr)          # REAL code
+        v = out["p"][0]
+        sx.reach("sampled")
+        if kind == "int":
+            if isinstance(v, SymReal):
+                return sx.all_of([v >= lo_v, v <= hi_v, v.is_integer(), ((v - lo_v) % step) == 0])
+            return P(dist._contains(v))
+        return P(dist._contains(v))
+    return body
+
+
 def setup_transform01(concrete):
     setup_kernels(concrete)
 
@@ -485,6 +573,12 @@ def obligations(tier):
     obs.append(Obligation("transform-roundtrip", transform_roundtrip_body, setup_transform01, CODE, bounds=dict(kinds=6, transform_0_1=[True, False]),
                           budget_s=600, classify=classify, require_reach=["roundtrip"],
                           describe="untransform(transform(cfg)) == cfg incl. narrow ranges at large magnitude"))
+    for st in ([1, 3] if q else [1, 2, 3, 5, 7]):
+        obs.append(Obligation(f"tpe-stage-int-step{st}", make_tpe_stage_body("int", st), setup_kernels, CODE, bounds=dict(low_high="z3 ints", step=st, sample="any point of the truncation interval"),
+                              budget_s=600, classify=classify, require_reach=["sampled"], describe=f"TPE discrete output stage + _untransform, IntDistribution step={st}"))
+    for st in ([0.25] if q else [0.25, 0.1, 1.0]):
+        obs.append(Obligation(f"tpe-stage-float-step{st}", make_tpe_stage_body("float", st), setup_kernels, CODE, bounds=dict(step=st, abs_low="<=1000", grid_points="<=1000"),
+                              budget_s=900, timeout_ms=300000, classify=classify, require_reach=["sampled"], describe=f"TPE discrete output stage, stepped float step={st} (float error model)"))
     for st in ([1, 2, 3, 7] if q else [1, 2, 3, 4, 5, 7, 10, 16, 64]):
         obs.append(Obligation(f"kernel-int-step{st}", make_int_kernel_body(st, False), setup_kernels, CODE,
                               bounds=dict(low_high="z3 ints, |x|<=2^40", point="ANY z3 real", step=st), budget_s=600, classify=classify,
